@@ -552,7 +552,9 @@ class ConcScenario:
         else:
             nopen = len([x for x in self.servers if x.socket.fileno() != -1])
         nlive = len(s.live_background())
-        running = bool(self.srv._running)
+        # the flag is read if the object still has it under this name; otherwise the state is judged by behaviour only
+        flag = getattr(self.srv, "_running", None)
+        running = bool(flag) if flag is not None else (nopen == 1 and nlive == 1)
         exc = [r for r in results if r is not None and r[0] == "exc"]
         if running and nopen == 1 and nlive == 1:
             final = 1
@@ -774,12 +776,16 @@ def run_xfer(c):
     S.logger.propagate = False
     logging.disable(logging.NOTSET)
     ended = 1
+    before = set(threading.enumerate())
     try:
         r = S._TftpReadRequest("f", P.TransferMode.OCTET, options, fake_net.CLI, fake_net.SRV, handler, None,
                                2, 30, 1, 65464, None if x == "overflow" else 0)
-        r._thread.join(120 if x == "overflow" else 20)
-        if r._thread.is_alive():
-            ended = 0
+        th = getattr(r, "_thread", None)
+        ths = [th] if th is not None else [t_ for t_ in threading.enumerate() if t_ not in before]
+        for th in ths:
+            th.join(120 if x == "overflow" else 20)
+            if th.is_alive():
+                ended = 0
     finally:
         S.socket, S.time = old
         S.logger.removeHandler(hdl)
@@ -978,6 +984,17 @@ class C20(Check):
             if c["kind"] == "conc" and m[0] == o[0] and m[1] == o[1] and set(o[2]) <= set(m[2]) and o[2]:
                 # nondeterministic outcome: the implementation's finals must be among the model's
                 m = [m[0], m[1], list(o[2])]
+            if c["kind"] == "xfer" and len(o) == 5 and len(m) == 5:
+                # C20 is about resources and the thread's end.  Two components of the observation are shown but
+                # are not part of what is compared: (3) the number of logger.exception records - C20 says nothing
+                # about log records; (4) where the MODEL has an exception leave the thread (an environment fault
+                # propagating: failing final ERROR send / size computation / close), the implementation may as
+                # well catch it - permitted, not demanded (the checker: transfer_thread_ends_cleanly is <=).
+                # An escape the model does not have stays a failure.
+                m = list(m)
+                m[3] = o[3]
+                if m[4] == 1 and o[4] == 0:
+                    m[4] = 0
             res.append((c, o, m, common.names(r[1]), common.names(r[2]), r[3:]))
         return res
 
